@@ -46,7 +46,8 @@ THEOREMS = [
 RULE = ("histories of ask / tell (plus about 10 % out-of-order and ask_dqd / tell_dqd calls) on a BanditScheduler with "
         "pool 1-8, num_active 1..pool, zeta in {0, 0.05, 1, 10}, both reselect modes, both add modes, with/without "
         "result archive, spies with and without a restarts counter restarting at scripted tells, batch sizes 0-4 "
-        "changing every iteration; strata by what the archive accepts: everything, something, nothing at all "
+        "changing every iteration; with/without extra fields passed to tell (routed like objective and measures), "
+        "main archive float64 or float32 with evaluation values not representable in float32; strata by what the archive accepts: everything, something, nothing at all "
         "(threshold_min above all objectives), nothing for a stretch then something, plus a restart-heavy and a "
         "protocol stratum. A case is non-trivial when some accepted ask after the first has both emitters to "
         "reselect and a pool larger than num_active (so that a selection by score actually happens); counted once "
@@ -65,6 +66,9 @@ ASSUMPTIONS = [
     "the first ask activates the first num_active pool members (class docstring); compared with the model only, the "
     "oracle accepts any choice there because all emitters are never-selected",
     "out-of-order calls (RuntimeError) and ask_dqd / tell_dqd (NotImplementedError) are compared with the model only",
+    "every per-row argument an emitter is told (objective, measures, every extra field; BanditScheduler has no "
+    "DQD path, so no Jacobian) must be exactly its own rows of what tell was given, value and dtype; what an archive "
+    "is handed is compared in that archive's own dtype",
 ]
 TECHNIQUE = "Lean 4 model + theorems; lock-step correspondence with angelic tie-breaking; history oracle"
 LEVEL_TEXT = ("proof (unbounded: every pool size >= num_active, both reselect modes, arbitrary restart counters, batch "
@@ -89,8 +93,11 @@ def stat(key, k=1):
 # ---------------------------------------------------------------------------
 
 
-def make_eval(it, n, seed, kind, hot, counter):
-    """objective / measures for the n rows of the batch asked at op `it`.
+def make_eval(it, n, seed, kind, hot, counter, noise=False):
+    """objective / measures / extra fields for the n rows of the batch asked at op `it`.
+
+    With `noise` the float values carry a perturbation < 3e-4 that is not representable in float32; row
+    positions are decoded by rounding.
 
     kind 'all'     : every row beats everything stored so far (objective grows with a global counter)
     kind 'some'    : random cells and objectives
@@ -101,23 +108,45 @@ def make_eval(it, n, seed, kind, hot, counter):
     frac = (p + 1) / 64.0
     cx = np.array([rng.randrange(4) for _ in range(n)], dtype=float)
     cy = np.array([rng.randrange(4) for _ in range(n)], dtype=float)
+    eps = (lambda j: (((p * 7 + it * 3 + j) % 11) + 1) * 0.1 / 4096.0) if noise else (lambda j: np.zeros(n))
     if kind == "all":
-        obj = counter + p + frac
+        obj = counter + p + frac + eps(0)
     elif kind == "some":
-        obj = np.array([rng.randrange(3) for _ in range(n)], dtype=float) + frac
+        obj = np.array([rng.randrange(3) for _ in range(n)], dtype=float) + frac + eps(0)
     else:
-        obj = np.array([rng.randrange(4) for _ in range(n)], dtype=float) + frac + (200.0 + counter if hot else 0.0)
-    meas = np.stack([cx + frac, cy + ((it % 60) + 1) / 64.0], axis=1).reshape(n, MDIM)
-    return obj, meas
+        obj = np.array([rng.randrange(4) for _ in range(n)], dtype=float) + frac + eps(0) + \
+            (200.0 + counter if hot else 0.0)
+    meas = np.stack([cx + frac + eps(1), cy + ((it % 60) + 1) / 64.0 + eps(2)], axis=1).reshape(n, MDIM)
+    fields = {"tag": (it * 1000 + p).astype(np.int64),
+              "vec": np.stack([p.astype(float) + eps(3), np.full(n, float(it)) + eps(4)], axis=1).reshape(n, 2)}
+    return obj, meas, fields
+
+
+def field_rows(name, arr, it):
+    """row positions a (slice of an) extra-field array belongs to; None if it does not decode"""
+    arr = np.asarray(arr)
+    try:
+        if name == "tag":
+            if arr.ndim != 1 or any(int(x) // 1000 != it for x in arr):
+                return None
+            return [int(x) % 1000 for x in arr]
+        if name == "vec":
+            if arr.ndim != 2 or arr.shape[1] != 2 or any(round(float(x)) != it for x in arr[:, 1]):
+                return None
+            return [int(round(float(x))) for x in arr[:, 0]]
+    except (TypeError, ValueError, IndexError):
+        return None
+    return None
 
 
 def meas_rows(arr, it):
     arr = np.asarray(arr)
     if arr.ndim != 2 or arr.shape[1] != MDIM:
         return None
-    if any(((float(y) % 1.0) * 64 - 1) != it % 60 for y in arr[:, 1]):
+    near = lambda v: float(round(v)) if abs(v - round(v)) < 0.05 else v
+    if any(near((float(y) % 1.0) * 64 - 1) != it % 60 for y in arr[:, 1]):
         return None
-    out = [(float(x) % 1.0) * 64 - 1 for x in arr[:, 0]]
+    out = [near((float(x) % 1.0) * 64 - 1) for x in arr[:, 0]]
     if any(x != int(x) or x < 0 for x in out):
         return None
     return [int(x) for x in out]
@@ -139,7 +168,11 @@ def build(case):
     kw = {}
     if case["archive"] in ("nothing", "nothing-then-some"):
         kw = {"learning_rate": 0.5, "threshold_min": 100.0}
-    mk = lambda r, **k: recording(GridArchive, log, r)(solution_dim=SOLDIM, dims=[4, 4], ranges=[(0, 4), (0, 4)], **k)
+    extra = {"tag": ((), np.int64), "vec": ((2,), np.float64)} if case.get("extra") else None
+    mk = lambda r, **k: recording(GridArchive, log, r)(solution_dim=SOLDIM, dims=[4, 4], ranges=[(0, 4), (0, 4)],
+                                                       extra_fields=extra, **k)
+    if case.get("dtype") == "f32":
+        kw["dtype"] = np.float32  # main archive only: the result archive stays float64
     archive = mk(False, **kw)
     result = mk(True) if case["result"] else None
     ctl = {"restart_now": []}
@@ -168,6 +201,7 @@ def build(case):
         def tell(self, solution, objective, measures, add_info, **fields):
             log.append({"ev": "tell", "em": self.idx, "solution": np.array(solution),
                         "objective": np.array(objective), "measures": np.array(measures),
+                        "fields": {k: np.array(v) for k, v in fields.items()},
                         "add_info": {k: np.array(v) for k, v in add_info.items()}})
             if self.idx in ctl["restart_now"] and hasattr(self, "restarts"):
                 self.restarts += 1
@@ -202,6 +236,7 @@ def gen_with(kind, rng, style="plain"):
         "archive": kind, "pool": n, "num_active": k, "zeta": rng.choice([0.0, 0.05, 0.05, 1.0, 10.0]),
         "reselect": reselect, "mode": rng.choice(["batch", "batch", "single"]), "result": rng.random() < 0.3,
         "emitters": emitters,
+        "extra": rng.random() < 0.5, "dtype": rng.choice(["f64", "f64", "f32"]), "noise": rng.random() < 0.5,
     }
     iters = rng.randint(3, 12)
     p_illegal = 0.35 if style == "protocol" else rng.choice([0.0, 0.0, 0.1])
@@ -336,6 +371,7 @@ def run_case(case):
             mark = len(log)
             exc, ret = None, None
             obj = meas = None
+            xf = {}
             try:
                 if name == "ask":
                     for s, m in zip(spies, op["ns"]):
@@ -345,13 +381,15 @@ def run_case(case):
                         ret = sched.ask()
                 elif name == "tell":
                     rows_n = sum(pending[2].values()) if pending is not None else 0
-                    obj, meas = make_eval(pending[0] if pending else 0, rows_n, op["seed"],
-                                          {"nothing-then-some": "nothing"}.get(case["archive"], case["archive"]),
-                                          op["hot"], counter)
+                    obj, meas, xf = make_eval(pending[0] if pending else 0, rows_n, op["seed"],
+                                              {"nothing-then-some": "nothing"}.get(case["archive"], case["archive"]),
+                                              op["hot"], counter, bool(case.get("noise")))
+                    if not case.get("extra"):
+                        xf = {}
                     ctl["restart_now"] = op["restart"]
                     with warnings.catch_warnings():
                         warnings.simplefilter("ignore")
-                        sched.tell(obj, meas)
+                        sched.tell(obj, meas, **xf)
                 elif name == "askdqd":
                     sched.ask_dqd()
                 else:
@@ -461,10 +499,22 @@ def run_case(case):
                                 return Failure("oracle", f"{where}: archive received a solution nobody generated "
                                                f"in this batch: {(em, sit, p)}")
                             rows.append(starts[em] + p)
-                        if meas_rows(e["measures"], pit) != rows or \
-                                not np.array_equal(np.asarray(e["objective"]), obj[rows] if rows else obj[:0]):
-                            return Failure("oracle", f"{where}: objective / measures inserted into the archive are "
-                                           f"not those of rows {rows}")
+                        arch = result if is_result else archive
+                        told = dict(xf, objective=obj, measures=meas)
+                        if sorted(e["fields"]) != sorted(xf):
+                            return Failure("oracle", f"{where}: extra fields {sorted(e['fields'])} reached the "
+                                           f"archive, told {sorted(xf)}")
+                        for fname, full in sorted(told.items()):
+                            arr = e["objective"] if fname == "objective" else e["measures"] if fname == "measures" \
+                                else e["fields"][fname]
+                            dt = arch.dtypes[fname]
+                            want = (full[rows] if rows else full[:0]).astype(dt)
+                            # compared in the receiving archive's own dtype (an early cast to it is harmless)
+                            if np.asarray(arr).shape != want.shape or not np.array_equal(np.asarray(arr).astype(dt), want):
+                                return Failure("oracle", f"{where}: {fname} handed to the "
+                                               f"{'result ' if is_result else ''}archive for rows {rows} is "
+                                               f"{np.asarray(arr).tolist()} (dtype {np.asarray(arr).dtype}); told, in "
+                                               f"that archive's dtype {np.dtype(dt)}: {want.tolist()}")
                         if not is_result:
                             st = np.asarray(e["ret"]["status"])
                             status[rows] = st.reshape(-1) if rows else []
@@ -482,10 +532,21 @@ def run_case(case):
                     if e["solution"].shape != outs[em].shape or not np.array_equal(e["solution"], outs[em]):
                         return Failure("oracle", f"{where}: emitter {em} was told solutions "
                                        f"{sols_of(e['solution'])}, it generated {sols_of(outs[em])}")
-                    if meas_rows(e["measures"], pit) != rows or \
-                            not np.array_equal(e["objective"], obj[rows] if rows else obj[:0]):
-                        return Failure("oracle", f"{where}: emitter {em} received objective / measures of rows "
+                    if meas_rows(e["measures"], pit) != rows:
+                        return Failure("oracle", f"{where}: emitter {em} was told objective / measures of rows "
                                        f"{meas_rows(e['measures'], pit)}, its rows are {rows}")
+                    if sorted(e["fields"]) != sorted(xf):
+                        return Failure("oracle", f"{where}: emitter {em} was told extra fields {sorted(e['fields'])}, "
+                                       f"tell was given {sorted(xf)}")
+                    # every per-row argument: exactly the emitter's own rows of what was told, value and dtype
+                    for fname, full in [("objective", obj), ("measures", meas)] + sorted(xf.items()):
+                        arr = e[fname] if fname in ("objective", "measures") else e["fields"][fname]
+                        want = full[rows[0]:rows[-1] + 1] if rows else full[:0]
+                        if arr.shape != want.shape or not np.array_equal(arr, want) or arr.dtype != full.dtype:
+                            got_rows = field_rows(fname, arr, pit) if fname in xf else meas_rows(e["measures"], pit)
+                            return Failure("oracle", f"{where}: emitter {em} was told {fname} = {arr.tolist()} (dtype "
+                                           f"{arr.dtype}, rows {got_rows}); its rows are {rows}, for which tell was "
+                                           f"given {want.tolist()} (dtype {full.dtype})")
                     st = [int(x) for x in np.asarray(e["add_info"].get("status", [])).reshape(-1)]
                     if st != [int(x) for x in status[rows]]:
                         return Failure("oracle", f"{where}: emitter {em} received feedback status {st}, the archive "
